@@ -37,6 +37,9 @@ R_GEN_KM = 6378.1
 SPECIAL_LAT = [90.0, -90.0, 89.999, -89.999, 0.0]
 SPECIAL_LON = [180.0, -180.0, 179.999, -179.999, 0.0]
 OFFSET_FACTORS = [0.0, 0.5, 1.0 - 1e-3, 1.0 + 1e-3, 3.0]
+# finer straddle for a share of the members (thresholds wrong by ~2e-5, e.g.
+# a unit factor; still far outside the 1e-9 r ambiguity band)
+FINE_FACTORS = [1.0 - 1e-5, 1.0 + 1e-5, 1.0 - 1e-4, 1.0 + 1e-4]
 BEARINGS = [0.0, 90.0, 180.0, 270.0]
 
 
@@ -77,6 +80,7 @@ def _member(draw, n_clusters, m_s, allow_nan, allow_far, sub_second):
     f = draw(st.one_of(st.just(0.0),
                        st.sampled_from(OFFSET_FACTORS),
                        st.sampled_from(OFFSET_FACTORS),
+                       st.sampled_from(FINE_FACTORS),
                        st.floats(0.0, 4.0, allow_nan=False)))
     b = draw(st.one_of(st.sampled_from(BEARINGS),
                        st.floats(0.0, 360.0, allow_nan=False,
@@ -361,10 +365,36 @@ def radius_km_exact(radius):
     return _LD(radius["value"]) * _LD(num) / _LD(den)
 
 
+NP_INT_TYPES = {"int16": 32767, "uint16": 65535, "int32": 2 ** 31 - 1,
+                "int64": 2 ** 63 - 1}
+
+
+def np_scalar_types(value):
+    """names of the NumPy scalar types that hold the (positive) number
+    exactly - radii are numbers.Number in general, e.g. an element of an
+    int16 array or a file attribute"""
+    import numpy as np
+    out = ["float64"]
+    if float(np.float32(value)) == value:
+        out.append("float32")
+    if float(value).is_integer():
+        out += [t for t, top in NP_INT_TYPES.items() if 0 < value <= top]
+    return out
+
+
+def radius_rel_slack(radius):
+    """extra relative width of the ambiguity band: a float32 radius is scaled
+    to metres / radians in float32 (NEP 50), i.e. with 6e-8 relative error"""
+    return 2e-7 if radius.get("np_type") == "float32" else 0.0
+
+
 def radius_argument(radius):
     """the object handed to typhon"""
     v = radius["value"]
     if radius["style"] == "number":
+        if radius.get("np_type"):
+            import numpy as np
+            return getattr(np, radius["np_type"])(v)
         return int(v) if radius.get("as_int") else v
     txt = repr(int(v)) if float(v).is_integer() and abs(v) < 1e15 else repr(v)
     if radius["unit"] is None:
